@@ -19,6 +19,8 @@ CRows == [part : {"cred"},
           nonce_hdr : {"absent", "a"}, nonce_opt : {"absent", "a", "b"},
           issuer_claim : {"issuer", "stranger"},
           disclosures : Disclosures,
+          \* registered claims the issuer concealed as well (disclosed together with the others, except for "none")
+          concealed : {"nothing", "iss", "exp", "iss_exp"},
           expiry : {"-1", "1"}, status : {"none", "revoked"}, fail_fast : {"FirstError", "AllErrors"}]
 
 \* every supplied disclosure must hash to a digest present in the signed claims
@@ -26,8 +28,13 @@ DisclosuresOk(d) == d \in {"all", "subset", "none", "reordered"}
 \* a disclosure supplied twice still hashes to a present digest: the property allows refusing or accepting it
 DisclosuresEither(d) == d = "duplicated"
 
-CredSigOk(r) == r.signed_with = "issuer_key" /\ r.kid = "full" /\ r.nonce_hdr = r.nonce_opt /\ r.issuer_claim = "issuer"
-CredUnitOk(r) == r.expiry = "1" /\ r.status = "none"
+\* the checks are made on the RECONSTRUCTED credential: a concealed claim counts exactly when it is disclosed
+IssConcealed(r) == r.concealed \in {"iss", "iss_exp"}
+ExpConcealed(r) == r.concealed \in {"exp", "iss_exp"}
+IssVisible(r) == ~IssConcealed(r) \/ r.disclosures # "none"          \* a credential without an issuer cannot be reconstructed
+ExpVisible(r) == ~ExpConcealed(r) \/ r.disclosures # "none"          \* an undisclosed expiry is no expiry
+CredSigOk(r) == r.signed_with = "issuer_key" /\ r.kid = "full" /\ r.nonce_hdr = r.nonce_opt /\ IssVisible(r) /\ r.issuer_claim = "issuer"
+CredUnitOk(r) == (ExpVisible(r) => r.expiry = "1") /\ r.status = "none"
 CredVerdict(r) ==
   IF ~CredSigOk(r) \/ ~CredUnitOk(r) THEN "reject"
   ELSE IF DisclosuresOk(r.disclosures) THEN "accept"
@@ -40,7 +47,7 @@ KRows == [part : {"kb"},
           kid : {"full", "fragment", "missing_method", "absent"},
           method_id : {"none", "holder_key"},
           signed_by : {"holder_key", "other_key_of_holder", "foreign_key"},
-          sd_hash : {"right", "over_other_disclosures", "wrong"},
+          sd_hash : {"right", "over_other_disclosures", "wrong", "empty", "prefix_of_right", "right_plus_suffix"},
           nonce : {"none", "same", "different"}, aud : {"none", "same", "different"},
           iat : {"before_earliest", "at_earliest", "inside", "at_latest", "after_latest"},
           window : {"both", "none_past", "none_future"}]
